@@ -16,7 +16,8 @@ var textFrags = []string{"x", "hello", " ", "&amp;", "&lt;", "&#x3c;b&#x3e;", "&
 var urlVals = []string{"http://example.com/", "https://a.b/c?d=e#f", "mailto:a@b.c", "/rel/path", "//host/x", "#frag", "javascript:alert(1)", "JaVaScRiPt:alert(1)", " javascript:alert(1)",
 	"java\tscript:alert(1)", "data:text/html,x", "data:image/png;base64,iVBORw0KGgo=", "ftp://x/y", "x-app://open", "http://a b/", "\x01javascript:x", "tel:+123", "http://[::1]/",
 	"http:\\\\evil.com", "a/b:c", "%6aavascript:x", "?q=<b>", "http://é.com/é?é#é", "", " ", "http://x/%zz", "http://example.org/ok/1", "https://example.org/no", "HTTP://EXAMPLE.ORG/ok",
-	"http://x/?a=1&b=2;c=3", "http://x/?<x>=1", "http://user:pw@h:80/p", "sftp://h/", "tels:1"}
+	"http://x/?a=1&b=2;c=3", "http://x/?<x>=1", "http://user:pw@h:80/p", "sftp://h/", "tels:1",
+	" http://example.com/x", "http://example.com/y ", "http://example.com/z\n", "\thttps://example.org/ok/t", "data:image/png;base64,iVBO\nRw0KGgo=", " /rel/padded ", "\u00a0http://example.com/nbsp"}
 
 var otherVals = []string{"", "1", "42", "50%", "rtl", "en", "a b", "nofollow", "noopener noreferrer", "_blank", "_self", "anonymous", "use-credentials", "allow-scripts allow-forms",
 	"allow-scripts allow-scripts x", "Hello, world!", "a<b", "a\"b", "a'b", "a&amp;b", "x y z", "abc", "ABC", "open", "1997-07-16", "left", "color: red", "color:red;background:url(javascript:x)",
@@ -73,9 +74,23 @@ func genAttrKV(t *rapid.T, attrs []string) (string, string) {
 }
 
 // genAttr returns one attribute in a random syntax (double/single/unquoted/valueless).
+// lookAlike replaces one ASCII letter by a non-ASCII character that Go's strings.ToLower /
+// EqualFold (but no HTML parser) folds into it: U+0130 -> i, U+212A -> k, U+017F -> s.
+func lookAlike(t *rapid.T, s string) string {
+	if rapid.IntRange(0, 11).Draw(t, "lookalike") != 0 {
+		return s
+	}
+	pairs := [][2]string{{"i", "\u0130"}, {"k", "\u212a"}, {"s", "\u017f"}, {"I", "\u0130"}}
+	p := rapid.SampledFrom(pairs).Draw(t, "lookpair")
+	if i := strings.Index(s, p[0]); i >= 0 {
+		return s[:i] + p[1] + s[i+1:]
+	}
+	return s
+}
+
 func genAttr(t *rapid.T, attrs []string) string {
 	k, v := genAttrKV(t, attrs)
-	k = mangleCase(t, k)
+	k = lookAlike(t, mangleCase(t, k))
 	switch rapid.IntRange(0, 9).Draw(t, "q") {
 	case 0:
 		return k
@@ -119,7 +134,7 @@ func genSoup(t *rapid.T, m *Model, o *soupOpts) string {
 	for i := 0; i < n; i++ {
 		switch rapid.IntRange(0, 9).Draw(t, "frag") {
 		case 0, 1, 2:
-			el := mangleCase(t, rapid.SampledFrom(elChoices).Draw(t, "el"))
+			el := lookAlike(t, mangleCase(t, rapid.SampledFrom(elChoices).Draw(t, "el")))
 			sb.WriteString("<" + el)
 			na := rapid.IntRange(0, 3).Draw(t, "na")
 			for j := 0; j < na; j++ {
@@ -323,6 +338,11 @@ func genStyleFrom(t *rapid.T, props []string) string {
 	var parts []string
 	for i := 0; i < n; i++ {
 		p := rapid.SampledFrom(props).Draw(t, "prop")
+		if len(p) > 1 && rapid.IntRange(0, 9).Draw(t, "infix") == 0 {
+			// a vendor-prefix string in the middle or at the end of the name is NOT a vendor prefix
+			pos := rapid.IntRange(1, len(p)).Draw(t, "infixpos")
+			p = p[:pos] + rapid.SampledFrom([]string{"-webkit-", "-moz-", "-o-", "-ms-", "mso-", "prince-", "-khtml-"}).Draw(t, "infixpfx") + p[pos:]
+		}
 		sep := rapid.SampledFrom([]string{":", ": ", " : ", ":"}).Draw(t, "colon")
 		parts = append(parts, p+sep+genCSSValue(t))
 	}
